@@ -7,6 +7,7 @@ use std::{
     future::poll_fn,
     option::Option,
     result::Result,
+    sync::Arc,
     task::{ready, Context, Poll},
 };
 
@@ -145,8 +146,13 @@ where
         stream: FrameStream<C::BidiStream, B>,
     ) -> RequestResolver<C, B> {
         RequestResolver {
+            // Owned by the resolver from the start, so that the connection is told about the end
+            // of the request however it ends, also before its headers are resolved.
+            request_end: Arc::new(RequestEnd {
+                request_end: self.request_end_send.clone(),
+                stream_id: stream.send_id(),
+            }),
             frame_stream: stream,
-            request_end_send: self.request_end_send.clone(),
             send_grease_frame: self.inner.send_grease_frame,
             max_field_section_size: self.max_field_section_size,
             shared: self.inner.shared.clone(),
